@@ -3,7 +3,7 @@
    DetailedPlacer: ops 0 / 1 / 2 (bestSwap, bestInsert, bestSwapUpdate) through DetailedValue.pbest as in driver_value.ml,
    op 8 (runReorderingOnCells: the window = the distinct optimised cells the raw ints name, first occurrences, in order)
    through Reorder.run.  Prints "INIT value ;placement", then per op " / B found ; value ;placement", " / SKIP",
-   " / P nleaves nregions xvalue yvalue ; value ;placement" (op 8; " / P THROW" when Reorder.run = None), and " / STOP" at
+   " / P xvalue yvalue nleaves nregions ; value ;placement" (op 8; " / P THROW" when Reorder.run = None), and " / STOP" at
    the first op of another kind.  "ERR" when from_circuit fails. *)
 open Model_reorder
 let rec pos_of_int n = if n = 1 then XH else if n land 1 = 0 then XO (pos_of_int (n lsr 1)) else XI (pos_of_int (n lsr 1))
@@ -88,12 +88,23 @@ let do_pv () =
                (match run !st cs with
                 | Some (s', n) ->
                     st := s';
-                    Buffer.add_string b (Printf.sprintf " / P %d %d %s %s ; %s" (int_of_nat n) nreg (zi s'.ps_o.ox.ivalue) (zi s'.ps_o.oy.ivalue) (show ()))
+                    Buffer.add_string b (Printf.sprintf " / P %s %s %d %d ; %s" (zi s'.ps_o.ox.ivalue) (zi s'.ps_o.oy.ivalue) (int_of_nat n) nreg (show ()))
                 | None -> Buffer.add_string b " / P THROW"; raise Exit)
         | _ -> Buffer.add_string b " / STOP"; raise Exit
       done
     with Exit -> ());
     print_endline (Buffer.contents b)
+
+(* PS <rows> <cells (legalized)> : the row structure from_circuit builds: "n ; ids of row 0 ; ids of row 1 ; ..." (n = number of
+   optimised cells; the generator of checks/c05_reorder.py picks its windows from it) *)
+let do_ps () =
+  let c = read_pcircuit () in
+  match from_circuit c with
+  | DErr _ -> print_endline "ERR"
+  | DOk d0 ->
+    let rows = row_ids d0 in
+    print_endline (string_of_int (List.length (List.concat rows)) ^
+                   String.concat "" (List.map (fun l -> " ;" ^ String.concat "" (List.map (fun x -> " " ^ string_of_int x) l)) rows))
 
 let () =
   try while true do
@@ -103,5 +114,5 @@ let () =
      | [] -> print_endline ""
      | tag :: r ->
        toks := r;
-       (try (match tag with "PR" -> do_pv () | _ -> print_endline "?TAG") with Short -> print_endline "?SHORT"))
+       (try (match tag with "PR" -> do_pv () | "PS" -> do_ps () | _ -> print_endline "?TAG") with Short -> print_endline "?SHORT"))
   done with End_of_file -> ()
